@@ -1,30 +1,49 @@
 import CJ.Lemmas.Registrar
+import CJ.Gen.C12Wrapper
 /-!
 # C12 — what the registrar tells the client is what it tells the stations, unforgeably
 
 Property theorems only, about `registerBidirectional` (`CJ/Model/Registrar.lean`), for every request,
 every registrar configuration, every answer of the selector / transports / override, and every random draw.
+
+The way `processC2SWrapper` assembles the forwarded wrapper is not written down here: it is the value
+`CJ.Gen.c12Wrapper`, regenerated from the source text on every run (go/ast).  Every theorem below is about
+the model instantiated with that value and goes through `wrapper_rebuilt_field_by_field`, the obligation
+that the regenerated facts describe a wrapper rebuilt field by field from an empty message.
 -/
 namespace CJ.Props.C12
 open CJ.Registrar
 
+/-- the facts about `processC2SWrapper` extracted from the code on this run -/
+abbrev W : WrapperFacts := CJ.Gen.c12Wrapper
+
+/-- **Obligation on the regenerated facts**: the forwarded wrapper does not start from the client's
+RegRespBytes / RegRespSignature, no assignment computes a value from them, the wrapper is not handed to
+anything else, the response, secret and payload are always set, and the signed copy has its two assignments. -/
+theorem wrapper_rebuilt_field_by_field : W.discardsClientFields = true := by decide
+
 /-- **The client's view is the forwarded view.** The response returned to the client (phantom addresses,
-destination port, transport parameters) is the response carried by the wrapper published to the stations,
-and, on an authenticated registrar, the signed copy as well. -/
+destination port, transport parameters) is the response carried by the wrapper published to the stations;
+on an authenticated registrar RegRespBytes / RegRespSignature are the registrar's own over that same
+response, on an unauthenticated registrar both are absent; the secret and the payload are the client's. -/
 theorem client_view_eq_forwarded (cfg : Cfg) (req : Req) (ext : Ext) (m : Nat) (a : Option String) (c : Resp) (f : Fwd)
-    (h : registerBidirectional cfg req ext m a = .ok c f) :
-    f.resp = some c ∧ (cfg.authenticated = true → f.signed = some c) ∧ (cfg.authenticated = false → f.signed = none) := by
-  obtain ⟨hf, hbd, rfl, hr, hs⟩ := register_ok h
+    (h : registerBidirectional W cfg req ext m a = .ok c f) :
+    f.resp = some c ∧
+    (cfg.authenticated = true → f.respBytes = .registrar c ∧ f.respSig = .registrar c ∧ f.signed = some c) ∧
+    (cfg.authenticated = false → f.respBytes = .absent ∧ f.respSig = .absent ∧ f.signed = none) ∧
+    f.secretKept = true ∧ f.payloadKept = true := by
+  obtain ⟨hf, hbd, rfl, hr, hb, hs, hsec, hpay⟩ := register_ok wrapper_rebuilt_field_by_field h
   have hal := final_aliased hbd
-  rw [hal] at hr hs
-  refine ⟨hr, ?_, ?_⟩
-  · intro ha; simpa [ha] using hs
-  · intro ha; simpa [ha] using hs
+  rw [hal] at hr hb hs
+  simp only [Option.map_some] at hr hb hs
+  refine ⟨hr, ?_, ?_, hsec, hpay⟩
+  · intro ha; simp [Fwd.signed, hb, hs, signedBy, ha]
+  · intro ha; simp [Fwd.signed, hb, hs, signedBy, ha]
 
 /-- the port is always decided by the registrar -/
 theorem port_always_set (cfg : Cfg) (req : Req) (ext : Ext) (m : Nat) (a : Option String) (c : Resp) (f : Fwd)
-    (h : registerBidirectional cfg req ext m a = .ok c f) : c.port.isSome = true := by
-  obtain ⟨hf, hbd, rfl, _, _⟩ := register_ok h
+    (h : registerBidirectional W cfg req ext m a = .ok c f) : c.port.isSome = true := by
+  obtain ⟨hf, hbd, rfl, _⟩ := register_ok wrapper_rebuilt_field_by_field h
   obtain ⟨h0, _, hpre, hsr⟩ := processBdReq_cases hbd
   cases hsr with
   | same => exact hpre.port
@@ -35,45 +54,110 @@ theorem port_always_set (cfg : Cfg) (req : Req) (ext : Ext) (m : Nat) (a : Optio
   | pfxSub s ip id pre fl hs hw hr ht hd hp hx => simp [Heap.get]
 
 /-- **A station ingesting the forwarded message ends up with the same phantom, port and parameters** as
-the client: the station applies the forwarded response by the rule of `NewRegistrationC2SWrapper`, whatever
-it derived on its own. -/
+the client.  `stationApply` is `NewRegistrationC2SWrapper` for one address family (`v6`); `dC` / `dR` are
+what the station derives on its own with the client's / the response's parameters and `src` is the kind of
+the registrant's address — all arbitrary.  Whenever the station builds a registration, its phantom of that
+family is the one the client was told (IPv4: if non-zero, the station reads 0 as absent), the port is the
+client's (as a 16-bit number) and the parameters are the ones the client ends up using. -/
 theorem station_ends_with_same (cfg : Cfg) (req : Req) (ext : Ext) (m : Nat) (a : Option String) (c : Resp) (f : Fwd)
-    (h : registerBidirectional cfg req ext m a = .ok c f) (d4 : Nat) (d6 : String) (dport : Nat) :
-    let st := stationApply req.disable req.params d4 d6 dport f.resp
-    (∀ x, c.v4 = some x → x ≠ 0 → st.phantom4 = some x) ∧
-    (∀ x, c.v6 = some x → st.phantom6 = some x) ∧
-    some st.port = c.port ∧
-    st.params = clientParams req c := by
-  obtain ⟨hfwd, _, _⟩ := client_view_eq_forwarded cfg req ext m a c f h
-  have hport := port_always_set cfg req ext m a c f h
-  simp only [hfwd, stationApply, clientParams]
-  refine ⟨?_, ?_, ?_, trivial⟩
-  · intro x hx hne; simp [hx, hne]
-  · intro x hx; simp [hx]
-  · cases hp : c.port with
-    | none => simp [hp] at hport
-    | some p => simp
+    (h : registerBidirectional W cfg req ext m a = .ok c f)
+    (v6 : Bool) (dC dR : Derived) (src : IPKind) (ph : Addr) (port : Nat) (ps : Option Params)
+    (hst : stationApply v6 req.disable req.params dC dR src f.resp = .ok ph port ps) :
+    (v6 = false → ∀ x, c.v4 = some x → x ≠ 0 → ph = .v4 x) ∧
+    (v6 = true → ∀ x, c.v6 = some x → ph = .raw x) ∧
+    (∀ p, c.port = some p → port = p % 65536) ∧
+    ps = clientParams req c := by
+  obtain ⟨hfwd, _⟩ := client_view_eq_forwarded cfg req ext m a c f h
+  rw [hfwd] at hst
+  exact stationApply_ok hst
+
+/-- … and the port is never left to the station's own derivation -/
+theorem station_port_is_registrars (cfg : Cfg) (req : Req) (ext : Ext) (m : Nat) (a : Option String) (c : Resp) (f : Fwd)
+    (h : registerBidirectional W cfg req ext m a = .ok c f)
+    (v6 : Bool) (dC dR : Derived) (src : IPKind) (ph : Addr) (port : Nat) (ps : Option Params)
+    (hst : stationApply v6 req.disable req.params dC dR src f.resp = .ok ph port ps) :
+    ∃ p, c.port = some p ∧ port = p % 65536 := by
+  have hp := port_always_set cfg req ext m a c f h
+  cases hc : c.port with
+  | none => simp [hc] at hp
+  | some p => exact ⟨p, rfl, (station_ends_with_same cfg req ext m a c f h v6 dC dR src ph port ps hst).2.2.1 p hc⟩
+
+/-- **The station does not refuse what the registrar forwards**: if the station can build the registration
+on its own (selector, parameters, port: `stationDerived … ≠ fail`), the registrant's address is an IP
+address, the IPv4 registration is only built for an IPv4 registrant (`parseRegMessage`) and the IPv6 phantom
+the client was told is an IPv6 address, then applying the forwarded response never makes it fail. -/
+theorem station_accepts_forwarded (cfg : Cfg) (req : Req) (ext : Ext) (m : Nat) (a : Option String) (c : Resp) (f : Fwd)
+    (h : registerBidirectional W cfg req ext m a = .ok c f)
+    (v6 : Bool) (dC dR : Derived) (src : IPKind)
+    (hder : stationDerived req.disable dC dR f.resp ≠ .fail)
+    (hsrc : src ≠ .invalid) (h4 : v6 = false → src = .v4)
+    (h6 : v6 = true → ∃ x, c.v6 = some x ∧ ipKind x = .v6) :
+    ∃ ph port ps, stationApply v6 req.disable req.params dC dR src f.resp = .ok ph port ps := by
+  obtain ⟨hfwd, _⟩ := client_view_eq_forwarded cfg req ext m a c f h
+  rw [hfwd] at hder ⊢
+  exact stationApply_accepts hder hsrc h4 h6
+
+/-- what the wrapper stage makes of a request does not depend on the client's response / signature fields -/
+theorem wrapper_ignores_forged (cfg : Cfg) (req : Req) (cresp : Option Resp) (m : Nat) (a : Option String)
+    (fr : Option Resp) (fb fs : String) :
+    processC2SWrapper W cfg { req with forgedResp := fr, forgedBytes := fb, forgedSig := fs } cresp m a =
+      processC2SWrapper W cfg { req with forgedResp := none, forgedBytes := "", forgedSig := "" } cresp m a := by
+  obtain ⟨_, hb, hs, _⟩ := discards_iff wrapper_rebuilt_field_by_field
+  unfold processC2SWrapper wrapperStart
+  simp only [hb, hs]
+  rfl
 
 /-- **Forged fields are discarded**: a registration response, serialized response or signature supplied
-by the client has no influence on what is returned or forwarded. -/
+by the client has no influence on what is returned or forwarded.  (The bytes and the signature are not
+discarded by every way of assembling the wrapper: see the counterexample for a wrapper that starts as a
+copy of the client's, at the end of this file.) -/
 theorem forged_fields_discarded (cfg : Cfg) (req : Req) (ext : Ext) (m : Nat) (a : Option String)
     (fr : Option Resp) (fb fs : String) :
-    registerBidirectional cfg { req with forgedResp := fr, forgedBytes := fb, forgedSig := fs } ext m a =
-      registerBidirectional cfg { req with forgedResp := none, forgedBytes := "", forgedSig := "" } ext m a := by
-  rfl
+    registerBidirectional W cfg { req with forgedResp := fr, forgedBytes := fb, forgedSig := fs } ext m a =
+      registerBidirectional W cfg { req with forgedResp := none, forgedBytes := "", forgedSig := "" } ext m a := by
+  unfold registerBidirectional
+  simp only
+  have hb : processBdReq cfg { req with forgedResp := none, forgedBytes := fb, forgedSig := fs } ext =
+      processBdReq cfg { req with forgedResp := none, forgedBytes := "", forgedSig := "" } ext := rfl
+  rw [hb]
+  split
+  · rfl
+  · rfl
+  · rename_i hh _
+    have := wrapper_ignores_forged cfg req (Option.map hh.get hh.wp) m a none fb fs
+    rw [this]
 
 /-- … in particular nothing of a forged signed response reaches the stations from an unauthenticated registrar -/
 theorem unauthenticated_never_signs (cfg : Cfg) (req : Req) (ext : Ext) (m : Nat) (a : Option String) (c : Resp) (f : Fwd)
-    (hauth : cfg.authenticated = false) (h : registerBidirectional cfg req ext m a = .ok c f) : f.signed = none :=
-  (client_view_eq_forwarded cfg req ext m a c f h).2.2 hauth
+    (hauth : cfg.authenticated = false) (h : registerBidirectional W cfg req ext m a = .ok c f) :
+    f.respBytes = .absent ∧ f.respSig = .absent :=
+  let ⟨hb, hs, _⟩ := (client_view_eq_forwarded cfg req ext m a c f h).2.2.1 hauth
+  ⟨hb, hs⟩
+
+/-- a unidirectional registration forwards no response and no signed copy, whatever the client supplied -/
+theorem unidirectional_forwards_no_response (cfg : Cfg) (req : Req) (m : Nat) (a : Option String) (ok : Bool) (f : Fwd)
+    (h : registerUnidirectional W cfg req m a ok = some f) :
+    f.resp = none ∧ f.respBytes = .absent ∧ f.respSig = .absent := by
+  unfold registerUnidirectional at h
+  split at h
+  · cases h
+  · rename_i fw hfw
+    split at h
+    · cases h
+      obtain ⟨h1, h2, h3, _⟩ := wrapper_ok wrapper_rebuilt_field_by_field hfw
+      refine ⟨h1, ?_, ?_⟩
+      · rw [h2]; cases cfg.authenticated <;> simp [signedBy]
+      · rw [h3]; cases cfg.authenticated <;> simp [signedBy]
+    · cases h
 
 /-- **Overrides of transport parameters only if allowed**: when the client has disabled registrar
 overrides the response carries no transport parameters, so client and station keep the client's own. -/
 theorem overrides_only_if_allowed (cfg : Cfg) (req : Req) (ext : Ext) (m : Nat) (a : Option String) (c : Resp) (f : Fwd)
-    (hdis : req.disable = true) (h : registerBidirectional cfg req ext m a = .ok c f) :
+    (hdis : req.disable = true) (h : registerBidirectional W cfg req ext m a = .ok c f) :
     c.params = none ∧ clientParams req c = req.params ∧
-      ∀ d4 d6 dport, (stationApply req.disable req.params d4 d6 dport f.resp).params = req.params := by
-  obtain ⟨hf, hbd, rfl, _, _⟩ := register_ok h
+      ∀ v6 dC dR src ph port ps, stationApply v6 req.disable req.params dC dR src f.resp = .ok ph port ps →
+        ps = req.params := by
+  obtain ⟨hf, hbd, rfl, _⟩ := register_ok wrapper_rebuilt_field_by_field h
   have hnone : (hf.get hf.rp).params = none := by
     obtain ⟨h0, _, hpre, hsr⟩ := processBdReq_cases hbd
     have hp := hpre.noParams hdis
@@ -84,9 +168,9 @@ theorem overrides_only_if_allowed (cfg : Cfg) (req : Req) (ext : Ext) (m : Nat) 
       cases rp <;> simpa [Heap.updR, Heap.upd, Heap.get] using hp
     | pfxSub s ip id pre fl hs hw hr ht hd hp' hx => simp [hdis] at hd
   refine ⟨hnone, by simp [clientParams, hnone], ?_⟩
-  intro d4 d6 dport
-  have hst := (station_ends_with_same cfg req ext m a _ f h d4 d6 dport).2.2.2
-  rw [hst]; simp [clientParams, hnone]
+  intro v6 dC dR src ph port ps hst
+  have := (station_ends_with_same cfg req ext m a _ f h v6 dC dR src ph port ps hst).2.2.2
+  rw [this]; simp [clientParams, hnone]
 
 /-- the override subnets configured for the transport of the request -/
 def subnetsFor (cfg : Cfg) (req : Req) : List Subnet :=
@@ -97,9 +181,9 @@ non-zero weight): whenever the IPv4 phantom in the response is not the one the s
 inside such a subnet. -/
 theorem substitute_in_configured_subnet (cfg : Cfg) (req : Req) (ext : Ext) (m : Nat) (a : Option String) (c : Resp) (f : Fwd)
     (hwf : ∀ s ∈ cfg.minSubnets ++ cfg.prefixSubnets, s.wf)
-    (h : registerBidirectional cfg req ext m a = .ok c f) (hne : c.v4 ≠ selected4 req ext) :
+    (h : registerBidirectional W cfg req ext m a = .ok c f) (hne : c.v4 ≠ selected4 req ext) :
     ∃ x s, c.v4 = some x ∧ s ∈ subnetsFor cfg req ∧ 0 < s.weight ∧ s.contains x = true := by
-  obtain ⟨hf, hbd, rfl, _, _⟩ := register_ok h
+  obtain ⟨hf, hbd, rfl, _⟩ := register_ok wrapper_rebuilt_field_by_field h
   obtain ⟨h0, _, hpre, hsr⟩ := processBdReq_cases hbd
   have hsel : selected4 { req with forgedResp := none } ext = selected4 req ext := rfl
   rw [hsel] at hpre
@@ -116,9 +200,9 @@ theorem substitute_in_configured_subnet (cfg : Cfg) (req : Req) (ext : Ext) (m :
 
 /-- **A phantom in an excluded subnet is never replaced.** -/
 theorem excluded_never_replaced (cfg : Cfg) (req : Req) (ext : Ext) (m : Nat) (a : Option String) (c : Resp) (f : Fwd)
-    (h : registerBidirectional cfg req ext m a = .ok c f) (x : Nat) (hsel : selected4 req ext = some x)
+    (h : registerBidirectional W cfg req ext m a = .ok c f) (x : Nat) (hsel : selected4 req ext = some x)
     (e : Subnet) (he : e ∈ cfg.exclusions) (hin : e.contains x = true) : c.v4 = some x := by
-  obtain ⟨hf, hbd, rfl, _, _⟩ := register_ok h
+  obtain ⟨hf, hbd, rfl, _⟩ := register_ok wrapper_rebuilt_field_by_field h
   obtain ⟨h0, _, hpre, hsr⟩ := processBdReq_cases hbd
   have hsel' : selected4 { req with forgedResp := none } ext = selected4 req ext := rfl
   rw [hsel', hsel] at hpre
@@ -148,11 +232,11 @@ Min registrations, with a non-excluded phantom — for every IPv4 override subne
 are draws for which the client (and, by `client_view_eq_forwarded`, the stations) get a phantom inside it. -/
 theorem every_weighted_subnet_used (cfg : Cfg) (req : Req) (ext : Ext) (m : Nat) (a : Option String)
     (henf : cfg.enforce = true) (hpct : ext.pctDraw < cfg.pctMin) (ht : req.transport = 1)
-    (c0 : Resp) (f0 : Fwd) (h0 : registerBidirectional cfg req ext m a = .ok c0 f0)
+    (c0 : Resp) (f0 : Fwd) (h0 : registerBidirectional W cfg req ext m a = .ok c0 f0)
     (hnx : excluded cfg (selected4 req ext) = false)
     (i : Nat) (s : Subnet) (hs : cfg.minSubnets[i]? = some s) (hw : 0 < s.weight) (hv4 : s.isV4 = true) (hwf : s.wf) :
     ∃ uNum uDen c f, uNum < uDen ∧
-      registerBidirectional cfg req { ext with uNum := uNum, uDen := uDen } m a = .ok c f ∧
+      registerBidirectional W cfg req { ext with uNum := uNum, uDen := uDen } m a = .ok c f ∧
       ∃ x, c.v4 = some x ∧ s.contains x = true := by
   have hi : i < (cfg.minSubnets.map (·.weight)).length := by
     have := (List.getElem?_eq_some_iff.mp hs).1; simpa using this
@@ -160,7 +244,7 @@ theorem every_weighted_subnet_used (cfg : Cfg) (req : Req) (ext : Ext) (m : Nat)
     have := (List.getElem?_eq_some_iff.mp hs).2
     simp only [List.getElem_map]; rw [this]; exact hw
   obtain ⟨uN, uD, hlt, hch⟩ := choose_reachable _ i hi hwi
-  obtain ⟨hf, hbd, _, _, _⟩ := register_ok h0
+  obtain ⟨hf, hbd, _⟩ := register_ok wrapper_rebuilt_field_by_field h0
   obtain ⟨hh, hps, hpre, rfl⟩ := processBdReq_ok hbd
   have hsel : selected4 { req with forgedResp := none } ext = selected4 req ext := rfl
   rw [hsel] at hpre
@@ -176,35 +260,56 @@ theorem every_weighted_subnet_used (cfg : Cfg) (req : Req) (ext : Ext) (m : Nat)
       .ok (hh.updR fun r => { r with v4 := some ip }) := by
     unfold processBdReq; rw [hps']; simp only; rw [hsub]
   -- the wrapper stage does not read the draws either
-  unfold registerBidirectional at h0
-  simp only at h0
-  rw [hbd] at h0
-  simp only at h0
-  split at h0
-  · cases h0
-  · rename_i fw hw
-    split at h0
-    · rename_i hsend
-      -- same request, same wrapper fields; the response attached is the new one
-      have hw' : ∃ fw', processC2SWrapper cfg { req with forgedResp := none }
-          (Option.map (hh.updR fun r => { r with v4 := some ip }).get (hh.updR fun r => { r with v4 := some ip }).wp) m a = some fw' := by
-        unfold processC2SWrapper at hw ⊢
-        split at hw
-        · cases hw
-        · rename_i hsec; simp [hsec]
-      obtain ⟨fw', hw'⟩ := hw'
-      refine ⟨uN, uD, (hh.updR fun r => { r with v4 := some ip }).get (hh.updR fun r => { r with v4 := some ip }).rp,
-        fw', hlt, ?_, ip, ?_, randAddr_contains hwf hip⟩
-      · unfold registerBidirectional
-        simp only
-        rw [hbd']
-        simp only
-        rw [hw']
-        simp only
-        rw [if_pos hsend]
-      · rcases hh with ⟨o0, o1, rp, wp⟩
-        cases rp <;> simp [Heap.updR, Heap.upd, Heap.get]
-    · cases h0
+  obtain ⟨f, hreg⟩ := register_with_heap (ext' := { ext with uNum := uN, uDen := uD }) h0 rfl hbd'
+  refine ⟨uN, uD, _, f, hlt, hreg, ip, ?_, randAddr_contains hwf hip⟩
+  rcases hh with ⟨o0, o1, rp, wp⟩
+  cases rp <;> simp [Heap.updR, Heap.upd, Heap.get]
+
+/-- The same for the Prefix transport (its selection loop is separate code): a Prefix registration that
+allows overrides, on a registrar that overrides all Prefix registrations, with a non-excluded phantom — for
+every IPv4 override subnet with a non-zero weight and a known prefix there are draws for which the client
+(and the stations) get a phantom inside it, together with that subnet's port and prefix. -/
+theorem every_weighted_prefix_subnet_used (cfg : Cfg) (req : Req) (ext : Ext) (m : Nat) (a : Option String)
+    (henf : cfg.enforce = true) (hpct : ext.pctDraw < cfg.pctPrefix) (ht : req.transport = 4)
+    (hdis : req.disable = false)
+    (c0 : Resp) (f0 : Fwd) (h0 : registerBidirectional W cfg req ext m a = .ok c0 f0)
+    (hnx : excluded cfg (selected4 req ext) = false)
+    (i : Nat) (s : Subnet) (hs : cfg.prefixSubnets[i]? = some s) (hw : 0 < s.weight) (hv4 : s.isV4 = true) (hwf : s.wf)
+    (id : Int) (pre : String) (fl : Int) (hpfx : s.pfx = some (id, pre, fl)) :
+    ∃ uNum uDen c f, uNum < uDen ∧
+      registerBidirectional W cfg req { ext with uNum := uNum, uDen := uDen } m a = .ok c f ∧
+      (∃ x, c.v4 = some x ∧ s.contains x = true) ∧ c.port = some s.port ∧
+      c.params = some (.pfx { prefixId := some id, flush := some fl, pbytes := some pre }) := by
+  have hi : i < (cfg.prefixSubnets.map (·.weight)).length := by
+    have := (List.getElem?_eq_some_iff.mp hs).1; simpa using this
+  have hwi : 0 < (cfg.prefixSubnets.map (·.weight))[i] := by
+    have := (List.getElem?_eq_some_iff.mp hs).2
+    simp only [List.getElem_map]; rw [this]; exact hw
+  obtain ⟨uN, uD, hlt, hch⟩ := choose_reachable _ i hi hwi
+  obtain ⟨hf, hbd, _⟩ := register_ok wrapper_rebuilt_field_by_field h0
+  obtain ⟨hh, hps, hpre, rfl⟩ := processBdReq_ok hbd
+  have hsel : selected4 { req with forgedResp := none } ext = selected4 req ext := rfl
+  rw [hsel] at hpre
+  obtain ⟨ip, hip⟩ : ∃ ip, randAddr s ext.hostDraw = some ip := by simp [randAddr, hv4]
+  have hps' : preStage cfg { req with forgedResp := none } { ext with uNum := uN, uDen := uD } = .ok hh := hps
+  have hexc : excluded cfg (hh.get hh.rp).v4 = false := by rw [hpre.v4]; exact hnx
+  have hsub : subnetOverride cfg { req with forgedResp := none } { ext with uNum := uN, uDen := uD } hh =
+      { hh with
+        o1 := { (hh.get hh.rp) with port := some s.port,
+                                    params := some (.pfx { prefixId := some id, flush := some fl, pbytes := some pre }),
+                                    v4 := some ip },
+        rp := true, wp := some true } := by
+    unfold subnetOverride
+    simp [henf, hexc, ht, hdis, hpct, hch, hs, hip, hpfx]
+  have hbd' : processBdReq cfg { req with forgedResp := none } { ext with uNum := uN, uDen := uD } =
+      .ok { hh with
+        o1 := { (hh.get hh.rp) with port := some s.port,
+                                    params := some (.pfx { prefixId := some id, flush := some fl, pbytes := some pre }),
+                                    v4 := some ip },
+        rp := true, wp := some true } := by
+    unfold processBdReq; rw [hps']; simp only; rw [hsub]
+  obtain ⟨f, hreg⟩ := register_with_heap (ext' := { ext with uNum := uN, uDen := uD }) h0 rfl hbd'
+  refine ⟨uN, uD, _, f, hlt, hreg, ⟨ip, ?_, randAddr_contains hwf hip⟩, ?_, ?_⟩ <;> simp [Heap.get]
 
 /-! ### non-vacuity: concrete registrations that satisfy the hypotheses -/
 
@@ -221,19 +326,39 @@ def ext0 : Ext :=
     ovSel := .nothing, unmarshal := some {}, port := some 443, pctDraw := 17, uNum := 1, uDen := 2, hostDraw := 77, sendOk := true }
 
 -- a successful, substituted, signed registration: u = 1/2 falls into the third subnet (weights 1, 0, 2)
-example : registerBidirectional cfg0 req0 ext0 4 (some "c6336407") =
-    .ok { v4 := some (167969024 + 77), v6 := some "20010db8007700000000000000000001", port := some 443 }
-        { source := 4, addr := some "c6336407",
-          resp := some { v4 := some (167969024 + 77), v6 := some "20010db8007700000000000000000001", port := some 443 },
-          signed := some { v4 := some (167969024 + 77), v6 := some "20010db8007700000000000000000001", port := some 443 } } := by
+def resp0 : Resp := { v4 := some (167969024 + 77), v6 := some "20010db8007700000000000000000001", port := some 443 }
+example : registerBidirectional W cfg0 req0 ext0 4 (some "c6336407") =
+    .ok resp0 { source := 4, addr := some "c6336407", resp := some resp0, respBytes := .registrar resp0,
+                respSig := .registrar resp0, secretKept := true, payloadKept := true } := by
   decide
+-- `forged_fields_discarded` is a fact about the code, not about every way of assembling the wrapper: a
+-- wrapper that starts as a copy of the client's forwards the forged bytes and signature from an
+-- unauthenticated registrar (RegRespBytes / RegRespSignature are only overwritten when the registrar signs)
+def wCopy : WrapperFacts := { W with base := .derived "proto.Clone(c2sPayload).(*pb.C2SWrapper)" }
+example : wCopy.discardsClientFields = false := by decide
+example : (match registerBidirectional wCopy { cfg0 with authenticated := false } req0 ext0 4 none with
+    | .ok _ f => (f.respBytes, f.respSig) | _ => (.absent, .absent)) = (.client "forged", .client "sig") := by decide
+example : registerBidirectional wCopy { cfg0 with authenticated := false } req0 ext0 4 none ≠
+    registerBidirectional wCopy { cfg0 with authenticated := false }
+      { req0 with forgedResp := none, forgedBytes := "", forgedSig := "" } ext0 4 none := by decide
+-- the station's rule on the forwarded response: IPv4 registration of an IPv4 registrant; the station's own
+-- derivation (198.18.0.1:1234) is overridden in address and port
+example : stationApply false req0.disable req0.params (.ok (.v4 3323068417) 1234) .fail .v4 (some resp0) =
+    .ok (.v4 (167969024 + 77)) 443 none := by decide
+-- … and what makes it refuse: an IPv6 phantom that is an IPv4-mapped address, a registrant that is no address
+example : stationApply true false none (.ok (.raw "20010db8010000000000000000000009") 443) .fail .v4
+    (some { resp0 with v6 := some "00000000000000000000ffff0a000001" }) = .reject "override" := by decide +kernel
+example : stationApply true false none (.ok (.raw "20010db8010000000000000000000009") 443) .fail .invalid (some resp0) =
+    .reject "regaddr" := by decide +kernel
+example : ipKind "20010db8007700000000000000000001" = .v6 ∧ stationDerived req0.disable (.ok (.v4 1) 443) .fail (some resp0) ≠ .fail := by
+  decide +kernel
 example : selected4 req0 ext0 = some 3405803783 ∧ excluded cfg0 (selected4 req0 ext0) = false := by decide
 example : ∀ s ∈ cfg0.minSubnets ++ cfg0.prefixSubnets, s.wf := by
   intro s hs
   simp [cfg0] at hs
   rcases hs with rfl | rfl | rfl <;> intro _ <;> decide
 -- an excluded phantom (198.51.100.7 in 198.51.100.0/24) keeps its address
-example : (match registerBidirectional cfg0 req0 { ext0 with sel4 := .ok 3325256711 true } 4 none with
+example : (match registerBidirectional W cfg0 req0 { ext0 with sel4 := .ok 3325256711 true } 4 none with
     | .ok c _ => c.v4 | _ => none) = some 3325256711 := by decide
 -- the weighted choice over (1, 0, 2): thirds of [0, 1)
 example : choose [1, 0, 2] 0 3 = some 0 ∧ choose [1, 0, 2] 1 3 = some 2 ∧ choose [1, 0, 2] 2 3 = some 2 := by decide
